@@ -136,6 +136,25 @@ impl Property for C07 {
         judge(format!("distance:{ta}/{tb}"), euclid(&ga, &gb), obs);
         judge(format!("distance:{tb}/{ta}"), euclid(&gb, &ga), obs);
         judge(format!("distance:Geometry[{ta}]/Geometry[{tb}]"), guard(std::panic::AssertUnwindSafe(|| Euclidean.distance(&ga, &gb))), obs);
+        // one operand concrete, the other wrapped in the enum
+        judge(format!("distance:{ta}/Geometry[{tb}]"), guard(std::panic::AssertUnwindSafe(|| with_concrete!(&ga, a => Euclidean.distance(a, &gb)))), obs);
+        judge(format!("distance:Geometry[{ta}]/{tb}"), guard(std::panic::AssertUnwindSafe(|| with_concrete!(&gb, b => Euclidean.distance(&ga, b)))), obs);
+        // the deprecated EuclideanDistance trait (still exported): concrete pair and enum
+        #[allow(deprecated)]
+        {
+            use geo::EuclideanDistance;
+            judge(format!("euclidean_distance(deprecated):{ta}/{tb}"), guard(std::panic::AssertUnwindSafe(|| with_concrete!(&ga, a => with_concrete!(&gb, b => a.euclidean_distance(b))))), obs);
+            judge(format!("euclidean_distance(deprecated):Geometry[{ta}]/Geometry[{tb}]"), guard(std::panic::AssertUnwindSafe(|| ga.euclidean_distance(&gb))), obs);
+        }
+        // Coord / by-value forms
+        if let (geo::Geometry::Point(pa), geo::Geometry::Point(pb)) = (&ga, &gb) {
+            judge("distance:Coord/Coord".to_string(), guard(std::panic::AssertUnwindSafe(|| Euclidean.distance(pa.0, pb.0))), obs);
+            judge("distance:Point/Point(by value)".to_string(), guard(std::panic::AssertUnwindSafe(|| Euclidean.distance(*pa, *pb))), obs);
+        }
+        if let (geo::Geometry::Point(pa), geo::Geometry::Line(lb)) = (&ga, &gb) {
+            judge("distance:Coord/Line".to_string(), guard(std::panic::AssertUnwindSafe(|| Euclidean.distance(pa.0, lb))), obs);
+            judge("distance:Line/Coord".to_string(), guard(std::panic::AssertUnwindSafe(|| Euclidean.distance(lb, pa.0))), obs);
+        }
         for r in 0..3u64 {
             let sel = crate::engine::splitmix64(c.vsel ^ r);
             let (va, vb) = match r {
